@@ -110,49 +110,69 @@ impl W {
     }
 }
 
-fn http_setup(w: &mut W, front: SocketAddr, tcp_front: Option<SocketAddr>, back: SocketAddr, from_scm: bool, define: bool) -> bool {
-    let fa: SocketAddress = front.into();
+/// the listeners of the test worker: (kind, bind address, public address)
+#[derive(Clone)]
+struct L {
+    kind: &'static str, // http | https | tcp | udp
+    addr: SocketAddr,
+    public: Option<SocketAddr>,
+}
+
+/// define (first worker) or only activate from the passed descriptors (successor) every listener, plus one
+/// cluster per http/tcp listener with `back` as its backend
+fn setup(w: &mut W, ls: &[L], back: SocketAddr, from_scm: bool) -> bool {
     let mut reqs = vec![];
-    if define {
-        reqs.push(RequestType::AddHttpListener(ListenerBuilder::new_http(fa.clone()).to_http(None).unwrap()));
-    }
-    reqs.push(RequestType::ActivateListener(ActivateListener { address: fa.clone(), proxy: ListenerType::Http.into(), from_scm }));
-    if define {
-        reqs.push(RequestType::AddCluster(Cluster { cluster_id: "c".into(), ..Default::default() }));
-        reqs.push(RequestType::AddHttpFrontend(RequestHttpFrontend {
-            cluster_id: Some("c".into()),
-            address: fa.clone(),
-            hostname: "x.test".into(),
-            path: PathRule::prefix("/".to_string()),
-            position: RulePosition::Tree.into(),
-            ..Default::default()
-        }));
-        reqs.push(RequestType::AddBackend(AddBackend {
-            cluster_id: "c".into(),
-            backend_id: "c-0".into(),
-            address: back.into(),
-            load_balancing_parameters: Some(LoadBalancingParams::default()),
-            sticky_id: None,
-            backup: None,
-        }));
-    }
-    if let Some(t) = tcp_front {
-        let ta: SocketAddress = t.into();
-        if define {
-            reqs.push(RequestType::AddTcpListener(ListenerBuilder::new_tcp(ta.clone()).to_tcp(None).unwrap()));
-        }
-        reqs.push(RequestType::ActivateListener(ActivateListener { address: ta.clone(), proxy: ListenerType::Tcp.into(), from_scm }));
-        if define {
-            reqs.push(RequestType::AddCluster(Cluster { cluster_id: "t".into(), ..Default::default() }));
-            reqs.push(RequestType::AddTcpFrontend(RequestTcpFrontend { cluster_id: "t".into(), address: ta.clone(), ..Default::default() }));
-            reqs.push(RequestType::AddBackend(AddBackend {
-                cluster_id: "t".into(),
-                backend_id: "t-0".into(),
+    for (i, l) in ls.iter().enumerate() {
+        let a: SocketAddress = l.addr.into();
+        let cid = format!("c{i}");
+        let backend = |cid: &str| {
+            RequestType::AddBackend(AddBackend {
+                cluster_id: cid.into(),
+                backend_id: format!("{cid}-0"),
                 address: back.into(),
                 load_balancing_parameters: Some(LoadBalancingParams::default()),
                 sticky_id: None,
                 backup: None,
-            }));
+            })
+        };
+        match l.kind {
+            "http" => {
+                let mut lb = ListenerBuilder::new_http(a.clone());
+                lb.with_public_address(l.public);
+                reqs.push(RequestType::AddHttpListener(lb.to_http(None).unwrap()));
+                reqs.push(RequestType::ActivateListener(ActivateListener { address: a.clone(), proxy: ListenerType::Http.into(), from_scm }));
+                reqs.push(RequestType::AddCluster(Cluster { cluster_id: cid.clone(), ..Default::default() }));
+                reqs.push(RequestType::AddHttpFrontend(RequestHttpFrontend {
+                    cluster_id: Some(cid.clone()),
+                    address: a.clone(),
+                    hostname: "x.test".into(),
+                    path: PathRule::prefix("/".to_string()),
+                    position: RulePosition::Tree.into(),
+                    ..Default::default()
+                }));
+                reqs.push(backend(&cid));
+            }
+            "https" => {
+                let mut lb = ListenerBuilder::new_https(a.clone());
+                lb.with_public_address(l.public);
+                reqs.push(RequestType::AddHttpsListener(lb.to_tls(None).unwrap()));
+                reqs.push(RequestType::ActivateListener(ActivateListener { address: a.clone(), proxy: ListenerType::Https.into(), from_scm }));
+            }
+            "tcp" => {
+                let mut lb = ListenerBuilder::new_tcp(a.clone());
+                lb.with_public_address(l.public);
+                reqs.push(RequestType::AddTcpListener(lb.to_tcp(None).unwrap()));
+                reqs.push(RequestType::ActivateListener(ActivateListener { address: a.clone(), proxy: ListenerType::Tcp.into(), from_scm }));
+                reqs.push(RequestType::AddCluster(Cluster { cluster_id: cid.clone(), ..Default::default() }));
+                reqs.push(RequestType::AddTcpFrontend(RequestTcpFrontend { cluster_id: cid.clone(), address: a.clone(), ..Default::default() }));
+                reqs.push(backend(&cid));
+            }
+            _ => {
+                let mut lb = ListenerBuilder::new_udp(a.clone());
+                lb.with_public_address(l.public);
+                reqs.push(RequestType::AddUdpListener(lb.to_udp(None).unwrap()));
+                reqs.push(RequestType::ActivateListener(ActivateListener { address: a.clone(), proxy: ListenerType::Udp.into(), from_scm }));
+            }
         }
     }
     for (i, r) in reqs.into_iter().enumerate() {
@@ -165,6 +185,43 @@ fn http_setup(w: &mut W, front: SocketAddr, tcp_front: Option<SocketAddr>, back:
         }
     }
     true
+}
+
+/// the sockets of THIS process (the workers are threads of it) bound to `addr` — listening ones for TCP —
+/// as the set of their inodes (duplicated descriptors share one)
+fn bound(addr: SocketAddr, dgram: bool) -> std::collections::BTreeSet<u64> {
+    let mut out = std::collections::BTreeSet::new();
+    for fd in 0..4096 {
+        let mut ty: libc::c_int = 0;
+        let mut len = std::mem::size_of::<libc::c_int>() as libc::socklen_t;
+        if unsafe { libc::getsockopt(fd, libc::SOL_SOCKET, libc::SO_TYPE, &mut ty as *mut _ as *mut libc::c_void, &mut len) } != 0 {
+            continue;
+        }
+        if (dgram && ty != libc::SOCK_DGRAM) || (!dgram && ty != libc::SOCK_STREAM) {
+            continue;
+        }
+        if !dgram {
+            let mut v: libc::c_int = 0;
+            let mut len = std::mem::size_of::<libc::c_int>() as libc::socklen_t;
+            unsafe { libc::getsockopt(fd, libc::SOL_SOCKET, libc::SO_ACCEPTCONN, &mut v as *mut _ as *mut libc::c_void, &mut len) };
+            if v == 0 {
+                continue;
+            }
+        }
+        let mut sa: libc::sockaddr_in = unsafe { std::mem::zeroed() };
+        let mut sl = std::mem::size_of::<libc::sockaddr_in>() as libc::socklen_t;
+        if unsafe { libc::getsockname(fd, &mut sa as *mut _ as *mut libc::sockaddr, &mut sl) } != 0 || sa.sin_family != libc::AF_INET as u16 {
+            continue;
+        }
+        let ip = std::net::Ipv4Addr::from(u32::from_be(sa.sin_addr.s_addr));
+        let port = u16::from_be(sa.sin_port);
+        if SocketAddr::new(ip.into(), port) == addr {
+            let mut st: libc::stat = unsafe { std::mem::zeroed() };
+            unsafe { libc::fstat(fd, &mut st) };
+            out.insert(st.st_ino as u64);
+        }
+    }
+    out
 }
 
 fn read_until(s: &mut TcpStream, acc: &mut Vec<u8>, done: impl Fn(&[u8]) -> bool) -> bool {
@@ -211,11 +268,16 @@ fn head_done(a: &[u8]) -> bool {
 fn softstop(seed: u64) {
     let config = ConfigBuilder::new(FileConfig::default(), "").into_config().expect("config");
     let sc = ServerConfig::from(&config);
-    let front = free_addr();
+    let ls = vec![
+        L { kind: "http", addr: free_addr(), public: None },
+        L { kind: "https", addr: free_addr(), public: None },
+        L { kind: "tcp", addr: free_addr(), public: None },
+    ];
+    let front = ls[0].addr;
     let back_l = TcpListener::bind("127.0.0.1:0").unwrap();
     let back = back_l.local_addr().unwrap();
     let mut w = start(&sc, &Listeners::default(), "a");
-    if !http_setup(&mut w, front, None, back, false, true) {
+    if !setup(&mut w, &ls, back, false) {
         return;
     }
     // 1. a request in flight: the backend has read it and does not answer yet
@@ -247,28 +309,27 @@ fn softstop(seed: u64) {
     if w.count("SS", ResponseStatus::Failure) > 0 {
         println!("viol softstop-failure the worker answered Failure to SoftStop");
     }
-    // 3. no new connection is served after the acknowledgement
-    match TcpStream::connect_timeout(&front, Duration::from_secs(2)) {
-        Err(_) => println!("note bb: new connection refused after the ack"),
-        Ok(mut b) => {
-            let _ = b.write_all(REQ);
-            let second = accept(&back_l, Duration::from_millis(700));
-            let mut got = vec![];
-            let _ = b.set_read_timeout(Some(Duration::from_millis(300)));
-            let mut buf = [0u8; 256];
-            if let Ok(n) = b.read(&mut buf) {
-                got.extend_from_slice(&buf[..n]);
-            }
-            if second.is_some() || !got.is_empty() {
-                println!(
-                    "viol accept-after-ack a connection made after the SoftStop acknowledgement was served (reached the backend: {}, answer bytes: {})",
-                    second.is_some(), got.len()
-                );
-            }
+    // 3. during the drain no listener takes a connection any more: the listening sockets are closed, so a
+    //    connection attempt is refused (one that merely queues in the backlog of a socket nobody accepts from
+    //    would be reset when the worker exits)
+    for l in &ls {
+        match TcpStream::connect_timeout(&l.addr, Duration::from_secs(2)) {
+            Err(e) if e.kind() == ErrorKind::ConnectionRefused => {}
+            Err(e) => println!("note bb: connect to the {} listener during the drain: {e}", l.kind),
+            Ok(_) => println!(
+                "viol accept-after-ack the {} listener still takes connections (TCP handshake completed) after the SoftStop acknowledgement, while the worker drains",
+                l.kind
+            ),
+        }
+        if !bound(l.addr, false).is_empty() {
+            println!("viol listener-open-after-ack the {} listening socket is still open and bound after the SoftStop acknowledgement", l.kind);
         }
     }
+    if accept(&back_l, Duration::from_millis(50)).is_some() {
+        println!("viol accept-after-ack a connection made during the drain reached the backend");
+    }
     if std::env::var_os("C10BB_DEBUG").is_some() {
-        println!("note dbg {:?} step4", std::time::SystemTime::now().duration_since(std::time::UNIX_EPOCH).unwrap().as_millis() % 100000);
+        println!("note dbg step4");
     }
     // 4. the in-flight request completes
     let body = 1 + (seed % 40000) as usize;
@@ -288,7 +349,7 @@ fn softstop(seed: u64) {
     if !ok {
         println!("viol softstop-no-final no final OK for SoftStop after the last session ended");
     }
-    w.wait(Duration::from_millis(500), |_| false);
+    w.wait(Duration::from_millis(300), |_| false);
     let n_ok = w.count("SS", ResponseStatus::Ok);
     if n_ok > 1 {
         println!("viol softstop-twice {n_ok} final OK answers for one SoftStop");
@@ -307,13 +368,31 @@ fn softstop(seed: u64) {
 fn handover(seed: u64) {
     let config = ConfigBuilder::new(FileConfig::default(), "").into_config().expect("config");
     let sc = ServerConfig::from(&config);
-    let front = free_addr();
-    let tfront = free_addr();
+    let pubaddr = |n: u16| -> Option<SocketAddr> { Some(format!("203.0.113.{}:{}", 1 + n % 200, 1000 + n).parse().unwrap()) };
+    // every listener type; some with a public address different from the address they are bound to
+    let ls = vec![
+        L { kind: "http", addr: free_addr(), public: None },
+        L { kind: "http", addr: free_addr(), public: pubaddr(1) },
+        L { kind: "https", addr: free_addr(), public: pubaddr(2) },
+        L { kind: "tcp", addr: free_addr(), public: pubaddr(3) },
+        L { kind: "tcp", addr: free_addr(), public: None },
+        L { kind: "udp", addr: free_addr(), public: pubaddr(4) },
+    ];
     let back_l = TcpListener::bind("127.0.0.1:0").unwrap();
     let back = back_l.local_addr().unwrap();
     let mut old = start(&sc, &Listeners::default(), "old");
-    if !http_setup(&mut old, front, Some(tfront), back, false, true) {
+    if !setup(&mut old, &ls, back, false) {
         return;
+    }
+    // the listening socket of every address, before the hand-over
+    let mut ino = std::collections::HashMap::new();
+    for l in &ls {
+        let b = bound(l.addr, l.kind == "udp");
+        if b.len() != 1 {
+            println!("note setup-failed {} sockets bound to {} before the hand-over", b.len(), l.addr);
+            return;
+        }
+        ino.insert(l.addr, *b.iter().next().unwrap());
     }
     // hand-over, as bin/src/command/upgrade.rs and e2e Worker::upgrade do it
     match old.call("RLS", RequestType::ReturnListenSockets(ReturnListenSockets {})) {
@@ -333,43 +412,68 @@ fn handover(seed: u64) {
             return;
         }
     };
-    // every listener of the old worker, paired with a listening socket bound to that very address
-    let want_http = vec![front];
-    let want_tcp = vec![tfront];
-    let got_http: Vec<SocketAddr> = listeners.http.iter().map(|x| x.0).collect();
-    let got_tcp: Vec<SocketAddr> = listeners.tcp.iter().map(|x| x.0).collect();
-    if got_http != want_http || got_tcp != want_tcp || !listeners.tls.is_empty() || !listeners.udp.is_empty() {
-        println!("viol listener-lost returned listeners http {got_http:?} tcp {got_tcp:?}, the worker had http {want_http:?} tcp {want_tcp:?}");
-    }
-    for (addr, fd) in listeners.http.iter().chain(listeners.tcp.iter()) {
-        let dup = unsafe { libc::dup(*fd) };
-        let l = unsafe { TcpListener::from_raw_fd(dup) };
-        let bound = l.local_addr().ok();
-        let mut v: libc::c_int = 0;
-        let mut len = std::mem::size_of::<libc::c_int>() as libc::socklen_t;
-        unsafe { libc::getsockopt(dup, libc::SOL_SOCKET, libc::SO_ACCEPTCONN, &mut v as *mut _ as *mut libc::c_void, &mut len) };
-        if bound != Some(*addr) || v == 0 {
-            println!("viol fd-mismatch the descriptor returned for {addr} is bound to {bound:?} (listening: {})", v != 0);
+    // every listener comes back under the address it is BOUND to (that is the key the successor looks it up by),
+    // paired with the very socket that was bound to it
+    for (kind, got) in [("http", &listeners.http), ("https", &listeners.tls), ("tcp", &listeners.tcp), ("udp", &listeners.udp)] {
+        let mut want: Vec<SocketAddr> = ls.iter().filter(|l| l.kind == kind).map(|l| l.addr).collect();
+        let mut have: Vec<SocketAddr> = got.iter().map(|x| x.0).collect();
+        want.sort();
+        have.sort();
+        if want != have {
+            println!("viol listener-lost {kind}: returned under the addresses {have:?}, the worker's listeners are bound to {want:?}");
+        }
+        for (addr, fd) in got.iter() {
+            let mut st: libc::stat = unsafe { std::mem::zeroed() };
+            unsafe { libc::fstat(*fd, &mut st) };
+            let l = unsafe { std::mem::ManuallyDrop::new(TcpListener::from_raw_fd(*fd)) };
+            let boundto = l.local_addr().ok();
+            if boundto != Some(*addr) || ino.get(addr) != Some(&(st.st_ino as u64)) {
+                println!("viol fd-mismatch {kind}: the descriptor returned for {addr} is bound to {boundto:?} (same socket as before the hand-over: {})", ino.get(addr) == Some(&(st.st_ino as u64)));
+            }
         }
     }
-    // a connection made during the hand-over waits in the shared backlog: it must be served by the successor
-    let mut early = TcpStream::connect_timeout(&front, Duration::from_secs(2)).ok();
-    if early.is_none() {
-        println!("viol refused-during-handover {front} refused a connection between ReturnListenSockets and the successor's start");
+    // connections made during the hand-over wait in the shared backlog: the successor must serve them
+    let http_addrs: Vec<SocketAddr> = ls.iter().filter(|l| l.kind == "http").map(|l| l.addr).collect();
+    let tcp_addrs: Vec<SocketAddr> = ls.iter().filter(|l| l.kind == "tcp").map(|l| l.addr).collect();
+    let mut early: Vec<(SocketAddr, TcpStream)> = vec![];
+    for a in &http_addrs {
+        match TcpStream::connect_timeout(a, Duration::from_secs(2)) {
+            Ok(c) => early.push((*a, c)),
+            Err(_) => println!("viol refused-during-handover {a} refused a connection between ReturnListenSockets and the successor's start"),
+        }
     }
     old.post("SS", RequestType::SoftStop(SoftStop {}));
     let mut new = start(&sc, &listeners, "new");
-    for (_, fd) in listeners.http.iter().chain(listeners.tcp.iter()) {
-        unsafe { libc::close(*fd) };
-    }
-    if !http_setup(&mut new, front, Some(tfront), back, true, true) {
+    listeners.close();
+    if !setup(&mut new, &ls, back, true) {
         return;
     }
-    // the successor serves both addresses
+    // the old worker finishes its soft stop: one OK, exit
+    let ok = old.wait(DEADLINE, |x| x.id == "SS" && x.status == ResponseStatus::Ok as i32);
+    old.wait(Duration::from_millis(200), |_| false);
+    if !ok || old.count("SS", ResponseStatus::Ok) != 1 {
+        println!("viol softstop-count the old worker sent {} final OK answers to its SoftStop", old.count("SS", ResponseStatus::Ok));
+    }
+    let t0 = Instant::now();
+    while !old.th.is_finished() && t0.elapsed() < DEADLINE {
+        std::thread::sleep(Duration::from_millis(10));
+    }
+    // now the successor alone holds the sockets: exactly one per address, the very one that was handed over
+    for l in &ls {
+        let b = bound(l.addr, l.kind == "udp");
+        if b.len() != 1 || b.iter().next() != ino.get(&l.addr) {
+            println!(
+                "viol handover-socket {} {}: after the hand-over {} socket(s) are bound to the address, {} (a fresh SO_REUSEPORT socket next to an unaccepted handed-over one splits the connections)",
+                l.kind, l.addr, b.len(),
+                if b.iter().any(|i| Some(i) == ino.get(&l.addr)) { "the handed-over one among them" } else { "none of them the one that was handed over" }
+            );
+        }
+    }
+    // every connection is served by the successor, on every address
     let body = 1 + (seed % 5000) as usize;
     let mut serve_http = |c: &mut TcpStream, what: &str| {
         let _ = c.write_all(REQ);
-        let Some(mut b) = accept(&back_l, DEADLINE) else {
+        let Some(mut b) = accept(&back_l, Duration::from_secs(5)) else {
             println!("viol not-served-after-handover {what}: the successor never forwarded the request");
             return;
         };
@@ -382,39 +486,41 @@ fn handover(seed: u64) {
             println!("viol not-served-after-handover {what}: {} of {} answer bytes", got.len(), r.len());
         }
     };
-    if let Some(c) = early.as_mut() {
-        serve_http(c, "connection queued during the hand-over");
+    for (a, c) in early.iter_mut() {
+        serve_http(c, &format!("connection to {a} queued during the hand-over"));
     }
-    match TcpStream::connect_timeout(&front, Duration::from_secs(2)) {
-        Ok(mut c) => serve_http(&mut c, "new HTTP connection"),
-        Err(_) => println!("viol refused-after-handover {front} refuses connections after the hand-over"),
-    }
-    match TcpStream::connect_timeout(&tfront, Duration::from_secs(2)) {
-        Ok(mut c) => {
-            let _ = c.write_all(b"ping");
-            match accept(&back_l, DEADLINE) {
-                Some(mut b) => {
-                    let mut got = vec![];
-                    if !read_until(&mut b, &mut got, |a| a.len() >= 4) || got != b"ping" {
-                        println!("viol not-served-after-handover TCP listener: backend got {got:?}");
-                    }
-                }
-                None => println!("viol not-served-after-handover TCP listener: the successor never connected to the backend"),
+    for a in &http_addrs {
+        for k in 0..6 {
+            match TcpStream::connect_timeout(a, Duration::from_secs(2)) {
+                Ok(mut c) => serve_http(&mut c, &format!("HTTP connection {k} to {a}")),
+                Err(_) => println!("viol refused-after-handover {a} refuses connections after the hand-over"),
             }
         }
-        Err(_) => println!("viol refused-after-handover {tfront} refuses connections after the hand-over"),
     }
-    // the old worker finishes its soft stop: one OK, exit
-    let ok = old.wait(DEADLINE, |x| x.id == "SS" && x.status == ResponseStatus::Ok as i32);
-    old.wait(Duration::from_millis(300), |_| false);
-    if !ok || old.count("SS", ResponseStatus::Ok) != 1 {
-        println!("viol softstop-count the old worker sent {} final OK answers to its SoftStop", old.count("SS", ResponseStatus::Ok));
+    for a in &tcp_addrs {
+        for k in 0..6 {
+            match TcpStream::connect_timeout(a, Duration::from_secs(2)) {
+                Ok(mut c) => {
+                    let _ = c.write_all(b"ping");
+                    match accept(&back_l, Duration::from_secs(5)) {
+                        Some(mut b) => {
+                            let mut got = vec![];
+                            if !read_until(&mut b, &mut got, |x| x.len() >= 4) || got != b"ping" {
+                                println!("viol not-served-after-handover TCP connection {k} to {a}: backend got {got:?}");
+                            }
+                        }
+                        None => println!("viol not-served-after-handover TCP connection {k} to {a}: the successor never connected to the backend"),
+                    }
+                }
+                Err(_) => println!("viol refused-after-handover {a} refuses connections after the hand-over"),
+            }
+        }
     }
     let alive = matches!(new.call("ST", RequestType::Status(Status {})), Some(s) if s == ResponseStatus::Ok as i32);
     if !alive {
         println!("viol worker-dead the successor does not answer Status");
     }
-    println!("note bb: handover http {} tcp {}", listeners.http.len(), listeners.tcp.len());
+    println!("note bb: handover http {} tls {} tcp {} udp {}", listeners.http.len(), listeners.tls.len(), listeners.tcp.len(), listeners.udp.len());
     println!("obs done");
 }
 
